@@ -356,6 +356,34 @@ Qed.
 
 (* ------------------------------------------------------------------------------------------- *)
 (* M5: the Model is exactly the prescribed stream (Spec/Lexer.v)                                  *)
+(* ---- grouping restores the category table ---- *)
+Lemma apply_gops_bal ops : forall ex stack cur rest, bal (length ex) ops = true ->
+  exists cur', apply_gops (ex ++ stack) cur (ops ++ rest) = apply_gops stack cur' rest.
+Proof.
+  induction ops as [|[c k] ops IH]; intros ex stack cur rest Hb; cbn [bal] in Hb; cbn [app apply_gops].
+  - destruct ex as [|e ex]; [|discriminate Hb]. exists cur. reflexivity.
+  - destruct (k =? 16) eqn:E16.
+    + exact (IH (cur :: ex) stack cur rest Hb).
+    + destruct (k =? 17) eqn:E17.
+      * destruct ex as [|e ex]; [discriminate Hb|]. cbn [length] in Hb. cbn [app]. exact (IH ex stack e rest Hb).
+      * exact (IH ex stack (set_catcode cur c k) rest Hb).
+Qed.
+
+Lemma group_restores_table ops : forall stack cur c c' rest, bal 0 ops = true ->
+  apply_gops stack cur ((c, 16) :: ops ++ (c', 17) :: rest) = apply_gops stack cur rest.
+Proof.
+  intros stack cur c c' rest Hb. cbn [apply_gops]. replace (16 =? 16) with true by reflexivity.
+  destruct (apply_gops_bal ops [] (cur :: stack) cur ((c', 17) :: rest) Hb) as (cur' & H). cbn [app] in H. rewrite H.
+  cbn [apply_gops]. replace (17 =? 16) with false by reflexivity. replace (17 =? 17) with true by reflexivity. reflexivity.
+Qed.
+
+Lemma gops_assign_innermost stack cur c k rest : k <? 16 = true ->
+  apply_gops stack cur ((c, k) :: rest) = apply_gops stack (set_catcode cur c k) rest.
+Proof.
+  intros Hk. cbn [apply_gops]. apply N.ltb_lt in Hk.
+  destruct (k =? 16) eqn:E1; [apply N.eqb_eq in E1; lia|]. destruct (k =? 17) eqn:E2; [apply N.eqb_eq in E2; lia|]. reflexivity.
+Qed.
+
 From Verif Require Import Lexer.
 
 Lemma dec_next_char t : forall n l, (length l <= n)%nat -> Dec t l (next_char t l).
